@@ -26,6 +26,7 @@ set_option linter.unusedSimpArgs false
 theorem dfltSensor_wf (k : Nat) : (dfltSensor k).Wf := by
   constructor
   · intro a h; simp [dfltSensor] at h; omega
+  · intro b h; simp [dfltSensor] at h; omega
   · intro i
     simp only [dfltSensor]
     rcases i with _ | _ | _ | _ | _ | _ | n <;> simp <;> omega
@@ -73,6 +74,8 @@ theorem sigClass_wf (iface ch : Nat) (s : BmcState) (hw : s.Wf) : get_signaling_
   hw.sigClass.getD _ _ (by omega)
 theorem powerChannel_wf (ch : Nat) (s : BmcState) (hw : s.Wf) : (get_power_channel ch s).status < 128 :=
   hw.powerChannels.getD ch _ (by simp; omega)
+theorem descr_wf (id : Nat) (s : BmcState) (hw : s.Wf) : DescrWf (get_component_description id s) :=
+  hw.hpmDescr.getD id _ ⟨by simp [dfltDescr], by intro c hc; simp [dfltDescr] at hc; omega⟩
 
 /-! ### every operation refines the oracle -/
 
@@ -176,6 +179,8 @@ theorem runModel_refines (c : Call) (s : BmcState) (hc : c.InRange) (hw : s.Wf) 
     rcases idx with _ | _ | _ | _ | n <;> simpa [runModel, opOf, opOfV, run, present, Result.toOutcome] using this
   | setPortState iface ch p =>
     simpa [runModel, opOf, opOfV, run, present, Result.toOutcome] using set_port_state_refines iface ch p s hc
+  | setPortStateType8 iface ch p =>
+    simpa [runModel, opOf, opOfV, run, present, Result.toOutcome] using set_port_state_type8_refines iface ch p s hc
   | getPortState ch iface =>
     simpa [runModel, opOf, opOfV, run, present, Result.toOutcome] using
       get_port_state_refines ch iface s hc.1 hc.2 (port_wf iface ch s hw)
@@ -201,6 +206,8 @@ theorem runModel_refines (c : Call) (s : BmcState) (hc : c.InRange) (hw : s.Wf) 
     simpa [runModel, opOf, opOfV, run, present, Result.toOutcome] using query_selftest_results_refines s hw.hpmSelftest2
   | queryRollbackStatus =>
     simpa [runModel, opOf, opOfV, run, present, Result.toOutcome] using query_rollback_status_refines s
+  | getComponentDescription id =>
+    simpa [runModel, opOf, opOfV, run] using get_component_description_refines id s hc (descr_wf id s hw)
 
 /-! ### reads leave the BMC untouched -/
 
@@ -215,7 +222,7 @@ theorem run_read (c : Call) (s : BmcState) (h : c.isRead = true) : (run c s).1 =
 
 theorem wf_init : ({} : BmcState).Wf := by
   refine ⟨⟨?_, ?_, ?_, ?_, ?_, ?_, ?_, ?_, ?_⟩, ?_, ⟨?_, ?_, ?_, ?_, ?_⟩, ⟨?_, ?_⟩, ?_, ?_, ?_, ?_, ?_, ?_, ?_, ?_, ?_, ?_, ?_, ?_, ?_, ?_,
-    ?_, ?_, ?_, ?_, ?_, ?_⟩ <;> first | decide | exact Map.All.empty _ | (intro a h; cases h)
+    ?_, ?_, ?_, ?_, ?_, ?_, ?_⟩ <;> first | decide | exact Map.All.empty _ | (intro a h; cases h)
 
 theorem wf_withUser (uid : Nat) (s s' : BmcState) (r : Result) (hw : s.Wf) (hw' : s'.Wf) : (withUser uid s (s', r)).1.Wf := by
   unfold withUser; split <;> assumption
@@ -278,7 +285,7 @@ theorem wf_run (c : Call) (s : BmcState) (hc : c.InRange) (hw : s.Wf) : (run c s
     obtain ⟨h1, h2⟩ := hc
     have hx := sensor_wf lun num s hw
     simp only [run, set_sensor_thresholds, range6, List.map_cons, List.map_nil]
-    refine { hw with sensors := hw.sensors.set _ _ ⟨hx.states1, ?_⟩ }
+    refine { hw with sensors := hw.sensors.set _ _ ⟨hx.states1, hx.states2, ?_⟩ }
     intro i
     have t := hx.thresholds
     have g : ∀ j, (match vals.getD j none with | some v => v | none => (get_sensor lun num s).thresholds.getD j 0) < 256 := by
@@ -296,7 +303,7 @@ theorem wf_run (c : Call) (s : BmcState) (hc : c.InRange) (hw : s.Wf) : (run c s
     · simp
   | rearmSensorEvents num =>
     have hx := sensor_wf 0 num s hw
-    exact { hw with sensors := hw.sensors.set _ _ ⟨hx.states1, hx.thresholds⟩ }
+    exact { hw with sensors := hw.sensors.set _ _ ⟨hx.states1, hx.states2, hx.thresholds⟩ }
   | sendPlatformEvent e => exact { hw with }
   | setEventReceiver a l => exact { hw with evAddr := (by show 2 * a < 256; have := hc.1; omega), evLun := hc.2 }
   | fruControl fru opt => exact { hw with }
@@ -324,6 +331,7 @@ theorem wf_run (c : Call) (s : BmcState) (hc : c.InRange) (hw : s.Wf) : (run c s
     simp only [run]
     split <;> exact { hw with }
   | setPortState iface ch p => exact { hw with ports := hw.ports.set _ p hc.2.2.2.1 }
+  | setPortStateType8 iface ch p => exact { hw with ports := hw.ports.set _ p hc.2.2.2.1 }
   | sendChannelPower ch en lim pri bak =>
     exact { hw with powerChannels := hw.powerChannels.set ch _ (powerChannel_wf ch s hw) }
   | sendPmHeartbeat => exact { hw with }
